@@ -35,3 +35,4 @@ def run(prog, rep):
     from ..rules import r_flow as _rfa
     _rfa.run_aligned(prog, rep)
     _ru.run_no_static_state(prog, rep)
+    r_pair.run_dispatch_total(prog, rep)
